@@ -661,3 +661,51 @@ def guarded_increase(body, blk, idx):
             if blk in body.reachable_from(list(good)) and blk not in body.reachable_from(list(bad), avoid={sb}):
                 return True
     return False
+
+
+# --------------------------------------------------------------------------- decision roots
+
+def idom(body, b):
+    d = body.dominators().get(b)
+    if not d or len(d) <= 1:
+        return None
+    best = None
+    for x in d:
+        if x == b:
+            continue
+        if best is None or len(body.dominators()[x]) > len(body.dominators()[best]):
+            best = x
+    return best
+
+
+def decision_root(body, blk):
+    """first switch of the condition chain that guards `blk` (for `if a && b { blk }` the switch on `a`)"""
+    cur = idom(body, blk)
+    # climb to the nearest dominating switch
+    while cur is not None and body.term(cur)["t"] != "switch":
+        cur = idom(body, cur)
+    if cur is None:
+        return None
+    root = cur
+    while True:
+        preds = body.pred(root)
+        if len(preds) != 1:
+            break
+        p = preds[0]
+        # skip straight-line blocks between chained conditions (calls evaluating the next operand)
+        q = p
+        hops = 0
+        while body.term(q)["t"] in ("call", "goto") and len(body.pred(q)) == 1 and hops < 6:
+            q = body.pred(q)[0]
+            hops += 1
+        if body.term(q)["t"] == "switch" and body.dominates(q, root) and len(body.succ(q)) == 2:
+            # q is part of the same && chain only if its other edge does not itself build an error/return value
+            root = q
+            continue
+        break
+    return root
+
+
+def ok_return_sites(body):
+    """blocks that build the success value returned by the function (Result::Ok / Poll::Ready(Ok) ...)"""
+    return [i for (i, j, rv, line) in agg_sites(body, r"^core::result::Result$", "Ok")]
